@@ -43,6 +43,43 @@ fn good_input(size: usize, rng: &mut Rng, single_doc: bool) -> Vec<u8> {
     s.into_bytes()
 }
 
+/// A small translatable input from the document generator, in a random source
+/// format and spelling, whose LAST value is chosen from the values that
+/// serializers write in unusual ways (empty string, empty collections, ...), so
+/// that the bytes of this input end in every kind of final write. Returns the
+/// content and the file extension that names its format.
+fn generated_input(rng: &mut Rng, to: Fmt) -> (Vec<u8>, &'static str) {
+    use crate::gen::{gen_doc, tomlify, Classes, GenOpts};
+    use crate::model::Val;
+    let mut cl = Classes::default();
+    let o = GenOpts { max_depth: 3, max_width: 3, ..GenOpts::common() };
+    let body = gen_doc(rng, &o, &mut cl);
+    let tail = match rng.below(10) {
+        0 | 1 => Val::s(""),
+        2 => Val::Seq(vec![]),
+        3 => Val::Map(vec![]),
+        4 => Val::Seq(vec![Val::s("")]),
+        5 => Val::Map(vec![(Val::s("x"), Val::s(""))]),
+        6 => Val::Seq(vec![Val::Seq(vec![]), Val::Map(vec![])]),
+        7 => Val::Int(0),
+        8 => Val::Bool(false),
+        _ => Val::s("\u{e9}"),
+    };
+    let as_map = to == Fmt::Toml || rng.chance(1, 2);
+    let mut doc = if as_map { Val::Map(vec![(Val::s("body"), body), (Val::s("tail"), tail)]) } else { Val::Seq(vec![body, tail]) };
+    let mut src = [Fmt::Json, Fmt::Yaml, Fmt::Msgpack, Fmt::Toml][rng.below(4)];
+    if to == Fmt::Toml || src == Fmt::Toml {
+        match tomlify(&doc) {
+            Some(d) => doc = d,
+            None => src = Fmt::Json,
+        }
+    }
+    let mut feats = crate::spell::Feats::default();
+    let plain = rng.chance(1, 2);
+    let bytes = crate::spell::spell(src, &doc, rng, &mut feats, plain);
+    (bytes, match src { Fmt::Json => "json", Fmt::Yaml => "yaml", Fmt::Msgpack => "msgpack", Fmt::Toml => "toml" })
+}
+
 #[derive(Clone, Debug)]
 pub struct Case {
     pub to: Fmt,
@@ -150,6 +187,14 @@ pub fn judge(case: &Case, acc: &mut Acc) {
             stdin = good_input(*size, &mut rng, single);
             stdin_used = true;
             argv.push("-".into());
+        } else if *size <= 3000 && i % 2 == 1 {
+            // generated content in any source format, ending in an empty string / empty collection / ...
+            let (b, ext) = generated_input(&mut rng, case.to);
+            let n2 = format!("f{i}.{ext}");
+            acc.count(&format!("generated_input_{ext}"));
+            sc.file(&n2, &b);
+            files.insert(n2.clone(), PathKind::Regular(b));
+            argv.push(n2);
         } else {
             let b = good_input(*size, &mut rng, single);
             sc.file(&name, &b);
@@ -199,9 +244,9 @@ pub fn run(ctx: &Ctx) -> i32 {
         acc.sample_every(149, || case.json());
         judge(&case, acc);
     });
-    let rule = format!("{} invocations: 1-6 inputs with sizes from 5 B to 4 MiB (mostly below the 8 KiB stdout buffer, some straddling it, some far above), the failing input at every position in turn (or none), failure kinds {:?}, all four targets, stdout a pipe or a file, some inputs through standard input; expectation computed with the library; distinct non-trivial = distinct invocations", n, FAILURES);
+    let rule = format!("{} invocations: 1-6 inputs with sizes from 5 B to 4 MiB (mostly below the 8 KiB stdout buffer, some straddling it, some far above), the failing input at every position in turn (or none), failure kinds {:?}, all four targets, stdout a pipe or a file, some inputs through standard input; every second small input is a generated document in a random source format and spelling (named by its extension) whose last value is an empty string, an empty collection or another value that serializers finish with an unusual final write; expectation computed with the library; distinct non-trivial = distinct invocations", n, FAILURES);
     ev::finish(
-        Finish { ctx, level: "fault_enumeration", rule, assumptions: vec!["how much of the FAILING input's own partial output reaches stdout is left open (anything between nothing and all of it)".into()], extra: serde_json::Map::new(), exhaustive: false, min_distinct: 300, must_reach: vec![("failures_with_earlier_output_below_buffer_size".into(), 100), ("expected_exit_0".into(), 50), ("failing_position_0".into(), 20), ("failing_position_3".into(), 20)] },
+        Finish { ctx, level: "fault_enumeration", rule, assumptions: vec!["how much of the FAILING input's own partial output reaches stdout is left open (anything between nothing and all of it)".into()], extra: serde_json::Map::new(), exhaustive: false, min_distinct: 300, must_reach: vec![("failures_with_earlier_output_below_buffer_size".into(), 100), ("expected_exit_0".into(), 50), ("failing_position_0".into(), 20), ("failing_position_3".into(), 20), ("generated_input_msgpack".into(), 30), ("generated_input_yaml".into(), 30), ("generated_input_json".into(), 30)] },
         acc,
     )
 }
